@@ -53,12 +53,12 @@ func (f *Func) Exported() bool {
 
 // Model indexes all functions with bodies of the ark packages.
 type Model struct {
-	Prog     *Program
-	Funcs    []*Func // package ecs only, declaration order (sorted by position)
-	ByObj    map[*types.Func]*Func
-	ByLit    map[*ast.FuncLit]*Func
-	Info     *types.Info
-	noReturn map[*types.Func]bool
+	Prog      *Program
+	Funcs     []*Func // package ecs only, declaration order (sorted by position)
+	ByObj     map[*types.Func]*Func
+	ByLit     map[*ast.FuncLit]*Func
+	Info      *types.Info
+	noReturn  map[*types.Func]bool
 	enclosing map[ast.Node]*Func
 }
 
@@ -256,6 +256,16 @@ func (m *Model) NoReturn(f *Func) bool { return f.Obj != nil && m.noReturn[f.Obj
 // CFG returns the control-flow graph of f.
 func (m *Model) CFG(f *Func) *cfg.CFG {
 	if f.graph == nil {
+		ast.Inspect(f.Body, func(n ast.Node) bool {
+			if sw, ok := n.(*ast.SwitchStmt); ok && sw.Tag == nil {
+				for _, cl := range sw.Body.List {
+					if cc, ok := cl.(*ast.CaseClause); ok {
+						TaglessCases[cc] = true
+					}
+				}
+			}
+			return true
+		})
 		f.graph = cfg.New(f.Body, m.mayReturn)
 	}
 	return f.graph
@@ -284,6 +294,17 @@ func (m *Model) FieldKey(v *types.Var) string {
 }
 
 var fieldOwnerCache = map[*Model]map[*types.Var]string{}
+
+// countUnpinned counts the fields of struct `owner` whose names are not in the pinned data model.
+func countUnpinned(actual map[string]*types.Var, owner string) int {
+	n := 0
+	for fname := range actual {
+		if _, pinned := PinnedFieldTypes[owner+"."+fname]; !pinned {
+			n++
+		}
+	}
+	return n
+}
 
 // PinnedFieldTypes maps "Owner.field" of the pinned data model to the field's type string. It is used to
 // resolve a renamed field: a field whose name is not pinned is identified with the pinned field of the same
@@ -384,6 +405,32 @@ func (m *Model) fieldOwners() map[*types.Var]string {
 				}
 				if len(cands) == 1 && others == 1 {
 					alias[fname] = cands[0]
+				}
+			}
+		}
+		// second chance: a renamed field whose type text changed as well (its type was renamed too): the pinned
+		// field declared at the same position of the same struct, if that one is still missing and unclaimed
+		if len(missing) > 0 {
+			claimed := map[string]bool{}
+			for _, k := range alias {
+				claimed[k] = true
+			}
+			for fname := range actual {
+				if _, pinned := PinnedFieldTypes[name+"."+fname]; pinned {
+					continue
+				}
+				if _, done := alias[fname]; done {
+					continue
+				}
+				var at []string
+				for _, mk := range missing {
+					if !claimed[mk] && pinIndex(mk) == index[fname] {
+						at = append(at, mk)
+					}
+				}
+				if len(at) == 1 && len(missing) == countUnpinned(actual, name) {
+					alias[fname] = at[0]
+					claimed[at[0]] = true
 				}
 			}
 		}
